@@ -3,3 +3,4 @@ pub mod c15;
 pub mod c14;
 pub mod c12;
 pub mod c01;
+pub mod c02;
